@@ -320,12 +320,15 @@ class Extractor:
         ops, nclos = body_ops(body)
         meta['ops'] = sorted(ops)
         meta['closures'] = nclos
+        meta['arith'] = arith_ops(body)
         meta['ops_key'] = ops_key(meta, opts.get('nth', '1'))
         base = baseline_ops()
         if base is not None and meta['ops_key'] in base:
             b = base[meta['ops_key']]
             meta['new_ops'] = sorted(ops - set(b['ops']))
             meta['new_closures'] = max(0, nclos - b['closures'])
+            ba = b.get('arith', {})
+            meta['new_arith'] = sorted(k for k, v in meta['arith'].items() if v > ba.get(k, 0))
         body, fired = rewrites.apply(body, rules)
         for k, v in sig_fired.items():
             fired[k] = fired.get(k, 0) + v
@@ -438,6 +441,50 @@ def body_ops(body):
         ops.add(mm.group(1) + '!')
     closures = len(re.findall(r'(?:[(,={;]|\bmove|\breturn)\s*(?:move\s+)?\|', m))
     return ops, closures
+
+
+_TOK_RE = re.compile(r"[A-Za-z_]\w*|\d[\w.]*|<<=|>>=|<<|>>|&&|\|\||&=|\|=|\^=|\*=|/=|%=|->|=>|==|!=|<=|>=|::|\.\.=?|.", re.S)
+_PREFIX_KW = set('if while match return in let mut ref else move break loop for unsafe as'.split()) - {'as'}
+_ARITH = {'<<': '<<', '<<=': '<<', '>>': '>>', '>>=': '>>', '&': '&', '&=': '&', '|': '|', '|=': '|', '^': '^', '^=': '^',
+          '*': '*', '*=': '*', '/': '/', '/=': '/', '%': '%', '%=': '%'}
+
+
+def arith_ops(body):
+    """Counts of the BINARY bit-level / non-linear operators in a body (<< >> & | ^ * / %), the ones
+    Verus' default solver mode does not reason about without an explicit by(bit_vector) /
+    by(nonlinear_arith) hint.  Token-based; reference `&`, deref `*`, closure bars, `&&`/`||` and
+    generic brackets are not counted."""
+    toks = [t for t in _TOK_RE.findall(rustscan.mask(body)) if not t.isspace()]
+    counts = {}
+    i = 0
+    n = len(toks)
+
+    def is_operand_end(t):
+        return (t[0].isalnum() or t[0] == '_' or t in (')', ']')) and t not in _PREFIX_KW
+
+    while i < n:
+        t = toks[i]
+        prev = toks[i - 1] if i else ''
+        nxt = toks[i + 1] if i + 1 < n else ''
+        infix = bool(prev) and is_operand_end(prev)
+        if t == '|' and not infix:
+            # closure parameter list: skip to the closing bar
+            j = i + 1
+            while j < n and toks[j] != '|':
+                j += 1
+            i = j + 1
+            continue
+        if t in _ARITH and infix:
+            ok = True
+            if t in ('>>', '<<') and not (nxt and (nxt[0].isalnum() or nxt[0] in '_(-!*&')):
+                ok = False
+            if t.endswith('=') and len(t) > 1:
+                ok = True
+            if ok:
+                k = _ARITH[t]
+                counts[k] = counts.get(k, 0) + 1
+        i += 1
+    return counts
 
 
 def baseline_ops():
